@@ -424,9 +424,12 @@ class _Neuron(Identity):
 @ident("Sequential = composition")
 class _Seq(Identity):
     def configs(self, tier):
-        return [{"form": "positional"}, {"form": "ordered_dict"}]
+        # shared_act / repeated: one module *instance* at two positions of the chain is applied twice, like any function
+        return [{"form": "positional"}, {"form": "ordered_dict"}, {"form": "shared_act"}, {"form": "repeated"}]
 
     def inputs(self, a):
+        if a["form"] == "repeated":
+            return [Inp("x", (2, 2)), Inp("w1", (2, 2), param=True), Inp("b1", (2,), param=True)]
         return [Inp("x", (2, 2)), Inp("w1", (3, 2), param=True), Inp("b1", (3,), param=True), Inp("w2", (1, 3), param=True)]
 
     def _mods(self, ts):
@@ -437,17 +440,32 @@ class _Seq(Identity):
         l2.weight = ts[3]
         return l1, nn.Tanh(), l2
 
+    def _square(self, ts):
+        l = NN().Linear(2, 2)
+        l.weight, l.bias = ts[1], ts[2]
+        return l
+
     def lhs(self, a, ts):
         from collections import OrderedDict
+        if a["form"] == "repeated":
+            l = self._square(ts)
+            return NN().Sequential(l, l)(ts[0])
         l1, act, l2 = self._mods(ts)
         if a["form"] == "ordered_dict":
             seq = NN().Sequential(OrderedDict([("first", l1), ("act", act), ("last", l2)]))
+        elif a["form"] == "shared_act":
+            seq = NN().Sequential(l1, act, l2, act)
         else:
             seq = NN().Sequential(l1, act, l2)
         return seq(ts[0])
 
     def rhs(self, a, ts):
+        if a["form"] == "repeated":
+            l = self._square(ts)
+            return l(l(ts[0]))
         l1, act, l2 = self._mods(ts)
+        if a["form"] == "shared_act":
+            return act(l2(act(l1(ts[0]))))
         return l2(act(l1(ts[0])))
 
 
